@@ -118,11 +118,16 @@ func (w *watchers) handlersCore() []*hdlr {
 	cmChange := func(o client.Object) {
 		cm := o.(*api.ConfigMap)
 		key := cm.Namespace + "/" + cm.Name
+		data := cm.Data
+		if data == nil {
+			// a nil map means `not changed`, an emptied configmap is a change
+			data = map[string]string{}
+		}
 		switch key {
 		case w.cfg.ConfigMapName:
-			w.ch.GlobalConfigMapDataNew = cm.Data
+			w.ch.GlobalConfigMapDataNew = data
 		case w.cfg.TCPConfigMapName:
-			w.ch.TCPConfigMapDataNew = cm.Data
+			w.ch.TCPConfigMapDataNew = data
 		}
 	}
 	return []*hdlr{
